@@ -23,7 +23,8 @@ def gen_knobs(rng):
     return {'compression': rng.choice([None, 'blsc', 'blsc']), 'cbs': rng.choice([16, 64, 1 << 10, 1 << 22]),
             'junk': rng.random() < 0.4, 'io_block': rng.choice(IO_BLOCKS), 'shuffle_glob': rng.random() < 0.5,
             'glob_seed': rng.randrange(1 << 20), 'poison': rng.choice(['A', 'B']),
-            'prelude_seed': rng.randrange(1 << 20) if rng.random() < 0.3 else None}
+            'prelude_seed': rng.randrange(1 << 20) if rng.random() < 0.3 else None,
+            'failed_load_before': rng.random() < 0.2}
 
 
 @contextlib.contextmanager
@@ -73,6 +74,23 @@ def environment(knobs, faults=None):
     finally:
         cfg.io_block_size = old_block
         pathlib.Path.glob = orig_glob
+
+
+def failed_loads_before(gd, knobs, faults=None):
+    """History: earlier in this process the user asked for something the catalogue cannot give (an unknown field, an
+    unknown unpack_bits name) and got an exception; whatever that left behind must not change the valid loads."""
+    if not knobs.get('failed_load_before') or gd is None:
+        return
+    for kw in ({'fields': ['id', 'no_such_field_xyz'], 'subsamples': False, 'cleaned': False},
+               {'fields': ['id'], 'subsamples': {'A': True, 'pid': True}, 'unpack_bits': ['no_such_bits'], 'cleaned': False},
+               {'fields': 'all', 'subsamples': {'A': True, 'pos': True}, 'cleaned': True, 'cleandir': os.path.join(str(gd) if isinstance(gd, (str, os.PathLike)) else '.', 'nowhere')}):
+        try:
+            with environment({'poison': knobs.get('poison', 'A')}):
+                load(gd, **kw)
+        except Exception:
+            pass
+    if faults is not None:
+        bump(faults, 'failed-loads-before')
 
 
 def prelude(world, knobs, root, faults=None):
